@@ -96,4 +96,15 @@ PROPS = {
         "assumptions": ["resource bounds of the sandbox, not of the property: prefix pools and ranges <= 2^20 blocks, sleep <= 5 ms, <= 5 autorefresh watchers and a bounded number of sqlite handles per process (skipped cases are counted)",
                         "argument tokens never contain blanks: configuration arguments are whitespace-separated fields"],
     },
+    "C10": {
+        "engine": "static",
+        "tests": [
+            {"name": "TestC10Static", "quick": {"checks": 3000, "shards": 2}, "thorough": {"checks": 20000, "shards": 12}},
+            {"name": "TestC10Refresh", "quick": {"checks": 12, "shards": 1}, "thorough": {"checks": 30, "shards": 2}, "env": {"VERIF_MAX_WATCHERS": 35}},
+            {"name": "TestC10Dual", "quick": {"checks": 800, "shards": 1}, "thorough": {"checks": 8000, "shards": 2}},
+        ],
+        "rule": "three generators. Static: a lease file from a grammar (entries with MACs of 6/8/20 bytes in colon/upper/hyphen/dotted spellings from a small pool so duplicates occur, IPv4 dotted or v4-mapped / IPv6 compressed, expanded or upper-case, separators of blanks and tabs, trailing blanks, comments, empty lines, with or without final newline, optionally exactly one malformed line: one field, three fields, bad MAC, bad address, wrong family), set up through Plugin.Setup4/Setup6; the harness's own parser of the rendered text says 'rejected' or gives the mapping; every listed MAC is probed (DHCPv4 chaddr; DHCPv6 via DUID-LL/LLT, via the relay's client link-layer address option, via an EUI-64 peer address; with and without IA_NA) and near-miss / truncated / fixed unlisted MACs must be passed untouched. Refresh: an autorefresh instance and 2..6 rewrites (in place by one pwrite of equal length, or one O_APPEND write), good or malformed: a good rewrite must become visible (10 s + one more event + 20 s), every lookup during the switch serves the old or the new value with a single switch point, a malformed rewrite leaves the previous mapping (polled 100 ms). Dual: both protocols configured in either order, each handler must serve its own file. Non-trivial: static file with >= 2 entries and a duplicate MAC or non-canonical spelling, or a rejected file with >= 3 lines; refresh sequence with a malformed rewrite after a good one; dual case with both files non-empty. Distinct: FNV-64 of the case JSON.",
+        "assumptions": ["no whitespace-only lines, indented comments or CR line endings; files are never replaced by rename (the property does not define these)",
+                        "net.ParseMAC / net.ParseIP define the accepted spellings, as the property says", "inotify instances are never released by the plugin: at most 35 autorefresh instances per process; a failing watcher creation is counted as skipped"],
+    },
 }
